@@ -1,17 +1,26 @@
 (* Props/C01.v — property C01 (nesting: exact depth, off-by-one boundary, cross-language agreement).
    Only statements closed by `exact <lemma>` and their Print Assumptions. *)
-From TL Require Import Lib.Base Lib.GenTypes Gen.NestingGen Model.Skel Model.Nesting
-     Proofs.NestingTs Proofs.NestingPy Proofs.NestingMain.
+From TL Require Import Lib.Base Lib.GenTypes Gen.NestingGen Model.Skel Model.Nesting Model.NestingDisc
+     Proofs.NestingTs Proofs.NestingPy Proofs.NestingMain Proofs.NestingDisc.
+Require Import Permutation.
 
 (* 1. For every quirk vector whose language flags are off, every limit and every admissible file
       (any number of functions / methods / arrow functions, any mix and shape of constructs):
       the linter model reports exactly the functions whose documented depth exceeds the limit,
       each once, at its header position, stating that depth. *)
 Theorem C01_ts_report_exact : forall q limit file,
-  q_ts_elseif_nests q = false -> file_good Ts file = true ->
+  q_ts_elseif_nests q = false -> q_ts_fn_types_from_code q = false -> file_good Ts file = true ->
   report Ts q limit file = spec_report limit file.
-Proof. intros q limit file H G. exact (ts_report_exact q H limit file G). Qed.
+Proof. intros q limit file H H2 G. exact (ts_report_exact q H limit file H2 G). Qed.
 Print Assumptions C01_ts_report_exact.
+
+(* confinement of q_ts_fn_types_from_code (the extractor's node-type list as found in the source): whatever the
+   flag, exact on every admissible file without function expressions / generator functions (partial) *)
+Theorem C01_ts_report_listed_partial : forall q limit file,
+  q_ts_elseif_nests q = false -> file_good Ts file = true -> forallb ts_listed (file_functions file) = true ->
+  report Ts q limit file = spec_report limit file.
+Proof. intros q limit file H G L. exact (ts_report_exact_listed q H limit file G L). Qed.
+Print Assumptions C01_ts_report_listed_partial.
 
 Theorem C01_rs_report_exact : forall q limit file,
   q_rs_elseif_nests q = false -> file_good Rs file = true ->
@@ -59,6 +68,65 @@ Theorem C01_py_actual_offset_partial : forall q f,
 Proof. intros q f H1 G. exact (py_calc_actual_offset q H1 f G). Qed.
 Print Assumptions C01_py_actual_offset_partial.
 
+(* 6. Function discovery.  The linter gets ONE parse tree per file and finds the function nodes itself (Python:
+      ast.walk, breadth first; TS/JS and Rust: pre-order over all children, node type tested against the source's
+      list).  The report computed that way from the whole-file tree - each found node judged by
+      calculate_max_depth on ITS subtree - is a permutation of the per-function report of items 1-5, for every
+      quirk vector, limit and admissible file; and every function-like node is found exactly once. *)
+Theorem C01_discovery_report : forall l q limit file,
+  file_good l file = true -> Permutation (report_d l q limit file) (report l q limit file).
+Proof. exact report_d_perm. Qed.
+Print Assumptions C01_discovery_report.
+
+Theorem C01_py_every_function_once : forall file,
+  forallb ifs_ok file = true ->
+  Permutation (tagged_ids (map py_dtag (py_find_all (py_module file))))
+              (map fn_ident (filter (fun f => smem (py_fn_cls (fn_kind f)) py_function_types) (file_functions file))).
+Proof. exact py_every_function_once. Qed.
+Print Assumptions C01_py_every_function_once.
+
+Theorem C01_ts_rs_every_function_once : forall nm ftypes file,
+  forallb ifs_ok file = true ->
+  Permutation (tagged_ids (map dtag (flat_map (ts_collect ftypes) (map (to_tsd nm) file))))
+              (map fn_ident (filter (fun f => smem (n_of nm (KFn (fn_kind f) (fn_name f) (fn_line f) (fn_col f))) ftypes)
+                                    (file_functions file))).
+Proof. exact ts_every_function_once. Qed.
+Print Assumptions C01_ts_rs_every_function_once.
+
+Theorem C01_py_tree_report_exact : forall q limit file,
+  q_py_start_from_code q = false -> 1 <= limit -> file_good Py file = true ->
+  Permutation (report_d Py q limit file) (spec_report limit file).
+Proof. exact py_report_d_exact. Qed.
+Print Assumptions C01_py_tree_report_exact.
+
+Theorem C01_ts_tree_report_exact : forall q limit file,
+  q_ts_elseif_nests q = false -> q_ts_fn_types_from_code q = false -> file_good Ts file = true ->
+  Permutation (report_d Ts q limit file) (spec_report limit file).
+Proof. exact ts_report_d_exact. Qed.
+Print Assumptions C01_ts_tree_report_exact.
+
+Theorem C01_rs_tree_report_exact : forall q limit file,
+  q_rs_elseif_nests q = false -> file_good Rs file = true ->
+  Permutation (report_d Rs q limit file) (spec_report limit file).
+Proof. exact rs_report_d_exact. Qed.
+Print Assumptions C01_rs_tree_report_exact.
+
+(* 7. The limit that applies to a file: NestingConfig.from_dict after the --max-depth override has the documented
+      precedence (command line > the language's block > top-level key > default) for every section, every
+      command-line value and every documented language; with 1-6: configuration in, documented report out. *)
+Theorem C01_limit_precedence : forall s cli language,
+  In language nesting_languages -> effective_limit s cli language = spec_limit s cli language.
+Proof. exact limit_precedence. Qed.
+Print Assumptions C01_limit_precedence.
+
+Theorem C01_configured_report_exact : forall l lname q s cli file,
+  In lname nesting_languages ->
+  q_py_start_from_code q = false -> q_ts_elseif_nests q = false -> q_ts_fn_types_from_code q = false -> q_rs_elseif_nests q = false ->
+  1 <= spec_limit s cli lname -> file_good l file = true ->
+  Permutation (report_d l q (effective_limit s cli lname) file) (spec_report (spec_limit s cli lname) file).
+Proof. exact configured_report_exact. Qed.
+Print Assumptions C01_configured_report_exact.
+
 (* non-vacuity: an admissible file in all three languages with functions on both sides of a limit *)
 Definition ex_file : list tree :=
   [T (KFn FDef "f" 1 0) [T KFor [T KIf [T KSimple []; T KElif [T KWhile [T KSimple []]]; T KElse [T KSimple []]]]];
@@ -66,4 +134,18 @@ Definition ex_file : list tree :=
 Example C01_nonvacuous :
   file_good Py ex_file = true /\ file_good Ts ex_file = true /\ file_good Rs ex_file = true
   /\ spec_report 3 ex_file = [(1, 0, "f", 4)] /\ spec_report 4 ex_file = [].
+Proof. vm_compute. repeat split; reflexivity. Qed.
+
+(* non-vacuity of 6 and 7: nested functions, a method and a curried arrow are all found; a language block beats the
+   top-level key and the command line beats both *)
+Definition ex_nested : list tree :=
+  [T (KFn FDef "outer" 1 0) [T KIf [T (KFn FDef "inner" 3 8) [T KFor [T KSimple []]]; T KElse [T (KFn FDef "late" 6 8) [T KSimple []]]]];
+   T KClass [T (KFn FMethod "m" 9 4) [T KWhile [T KSimple []]]]].
+Example C01_discovery_nonvacuous :
+  file_good Py ex_nested = true /\ file_good Ts ex_nested = true /\ file_good Rs ex_nested = true
+  /\ map fst (map fst (map fst (report_d Py ideal 1 ex_nested))) = [1; 9; 3]
+  /\ map fst (map fst (map fst (report_d Ts ideal 1 ex_nested))) = [1; 3; 9]
+  /\ effective_limit {| s_top := Some 5; s_langs := [("rust", Some 2); ("python", None)] |} None "rust" = 2
+  /\ effective_limit {| s_top := Some 5; s_langs := [("rust", Some 2); ("python", None)] |} None "python" = 5
+  /\ effective_limit {| s_top := Some 5; s_langs := [("rust", Some 2)] |} (Some 7) "rust" = 7.
 Proof. vm_compute. repeat split; reflexivity. Qed.
